@@ -231,6 +231,75 @@ Proof.
   exact (get_iff_registered progs s i s' j r p Hc Hs' Hp).
 Qed.
 
+(* C10_one_winner, at any moment: of the adds of an id that nobody stops, once the
+   first has taken the lock exactly one (w) has won and is the entry; it has run
+   Start() or rests right before it; every other one has not won, never runs
+   Start(), and has published its duplicate event or rests right before that *)
+Theorem C10_src_one_winner progs t0 t i :
+  (forall prog, prog ∈ progs -> i ∉ stops_of prog) ->
+  src_init M G progs = Some t0 -> src_reach M G t0 t ->
+  (exists p, h_ids t !! p = Some i) ->
+  exists w, h_ids t !! w = Some i /\ w ∈ h_won t /\ h_reg t i = Some w /\
+            (w ∈ h_started t \/ exists k th rest, h_thr t !! k = Some th /\ frames th = F_Start rest /\ tproc th = Some w) /\
+            forall p, h_ids t !! p = Some i -> p <> w ->
+                      p ∉ h_won t /\ p ∉ h_started t /\
+                      (p ∈ h_dup t \/ exists k th rest, h_thr t !! k = Some th /\ frames th = F_Dup rest /\ tproc th = Some p).
+Proof.
+  intros Hns H0 Hr Hex. destruct (sim_reach _ _ _ H0 Hr) as (s & Hc & HR).
+  destruct HR as (Hids & Hreg & Hwon & Hsta & Hsto & Hrem & Hdup & Hget & Hthr).
+  rewrite <- Hids in Hex.
+  destruct (one_winner progs i s Hns Hc Hex) as (w & A & B & C & D & E).
+  exists w. rewrite <- Hids, <- Hreg, <- Hwon, <- Hsta, <- Hdup. split_and!; try assumption.
+  - destruct D as [D|(k & rest & D)]; [left; exact D|right].
+    destruct (Forall2_lookup_l' _ _ _ _ _ Hthr D) as (th & Hth & (_ & HF & HP)). eauto 6.
+  - intros p Hp Hne. destruct (E p Hp Hne) as (E1 & E2 & E3). split_and!; try assumption.
+    destruct E3 as [E3|(k & rest & E3)]; [left; exact E3|right].
+    destruct (Forall2_lookup_l' _ _ _ _ _ Hthr E3) as (th & Hth & (_ & HF & HP)). eauto 6.
+Qed.
+
+(* a thread resting at the start of CAdd i stands for the model thread (MIdle, CAdd i :: rest) *)
+Lemma R_at_add m th i rest : R m th -> frames th = [FClient (CAdd i :: rest)] -> m = (MIdle, CAdd i :: rest).
+Proof.
+  intros (_ & HR) Hf. destruct m as [[|p|p|p j] prog]; cbn in HR.
+  - destruct prog as [|o prog]; cbn in HR; rewrite HR in Hf; [discriminate|]. inversion Hf. reflexivity.
+  - destruct HR as [HR _]. rewrite HR in Hf. discriminate.
+  - destruct HR as [HR _]. rewrite HR in Hf. discriminate.
+  - destruct HR as [HR _]. rewrite HR in Hf. discriminate.
+Qed.
+
+(* C10, last sentence ("after an actor has stopped its ID can be spawned again"), on the
+   translated code: the critical section of Remove frees the id of the stopped process, and an
+   add that finds its id free — after a Remove or never taken — wins: it becomes the entry
+   and goes on to proc.Start() *)
+Theorem C10_src_respawn_after_remove progs t0 t :
+  src_init M G progs = Some t0 -> src_reach M G t0 t ->
+  (forall k t' p, src_step M G t k = Some (t', LRem p) ->
+     exists i, h_ids t !! p = Some i /\ h_reg t i = Some p /\ h_reg t' i = None) /\
+  (forall k th i rest, h_thr t !! k = Some th -> frames th = [FClient (CAdd i :: rest)] -> h_reg t i = None ->
+     exists t' th', src_step M G t k = Some (t', LAdd i (List.length (h_ids t)) true) /\
+                    h_reg t' i = Some (List.length (h_ids t)) /\
+                    h_thr t' !! k = Some th' /\ frames th' = F_Start rest /\ tproc th' = Some (List.length (h_ids t))).
+Proof.
+  intros H0 Hr. destruct (sim_reach _ _ _ H0 Hr) as (s & Hc & HR). split.
+  - intros k t' p Hs. destruct (sim_bwd _ _ _ _ _ HR Hs) as (s' & Hs' & HR').
+    destruct (remove_frees s k s' p (Inv_reach _ _ Hc) Hs') as (i & A & B & C).
+    destruct HR as (Hids & Hreg & _). destruct HR' as (_ & Hreg' & _).
+    exists i. rewrite <- Hids, <- Hreg, <- Hreg'. auto.
+  - intros k th i rest Hth Hf Hfree.
+    assert (Hm : c_thr s !! k = Some (MIdle, CAdd i :: rest)).
+    { destruct HR as (_ & _ & _ & _ & _ & _ & _ & _ & Hthr).
+      destruct (Forall2_lookup_r _ _ _ _ _ Hthr Hth) as (m & Hm & HRm).
+      rewrite (R_at_add _ _ _ _ HRm Hf) in Hm. exact Hm. }
+    assert (Hfree' : c_reg s i = None) by (destruct HR as (_ & -> & _); exact Hfree).
+    destruct (add_on_free_id_wins s k rest i Hm Hfree') as (s' & Hs' & A & B).
+    destruct (sim_fwd _ _ _ _ _ HR Hs') as (t' & Ht' & HR').
+    assert (Hlen : c_ids s = h_ids t) by (destruct HR as (-> & _); reflexivity).
+    rewrite Hlen in *.
+    destruct HR' as (_ & Hreg' & _ & _ & _ & _ & _ & _ & Hthr').
+    destruct (Forall2_lookup_l' _ _ _ _ _ Hthr' B) as (th' & Hth' & (_ & HF & HP)).
+    exists t', th'. rewrite <- Hreg'. auto.
+Qed.
+
 Lemma finished_idle m th : R m th -> finished th = true -> m = (MIdle, []).
 Proof.
   intros (_ & HR) Hf. unfold finished in Hf. destruct m as [[|p|p|p j] prog]; cbn in HR.
@@ -325,4 +394,10 @@ Print Assumptions C10_src_one_winner_at_the_end.
 Goal True. idtac "@@END". Abort.
 Goal True. idtac "@@BEGIN C10_src_no_thread_blocks". Abort.
 Print Assumptions C10_src_no_thread_blocks.
+Goal True. idtac "@@END". Abort.
+Goal True. idtac "@@BEGIN C10_src_one_winner". Abort.
+Print Assumptions C10_src_one_winner.
+Goal True. idtac "@@END". Abort.
+Goal True. idtac "@@BEGIN C10_src_respawn_after_remove". Abort.
+Print Assumptions C10_src_respawn_after_remove.
 Goal True. idtac "@@END". Abort.
